@@ -64,6 +64,11 @@ Proof. vm_compute. repeat split; reflexivity. Qed.
 Theorem C08_fact_caches : unknown_fields cache_fields = [].
 Proof. vm_compute. reflexivity. Qed.
 
+(* no variable is captured by the closures that serve the ABCI calls: nothing survives from one
+   request to the next outside the objects classified above *)
+Theorem C08_fact_closures : closure_vars = [].
+Proof. vm_compute. reflexivity. Qed.
+
 Example C08_fact_caches_nonvacuous :
   (50 <=? Z.of_nat (List.length cache_fields)) = true /\
   (5 <=? Z.of_nat (count_class (fun c => match c with OptionCopy => true | _ => false end) cache_fields)) = true /\
@@ -130,3 +135,4 @@ Print Assumptions C08_tracker_step_is_consensus_step.
 Print Assumptions C08_fact_globals.
 Print Assumptions C08_fact_local_reads.
 Print Assumptions C08_fact_state_then_local_error.
+Print Assumptions C08_fact_closures.
